@@ -173,8 +173,13 @@ impl IK {
         }
     }
 }
+/// The expiry instant a user writes for contract date `d`: the venue names a dated contract by its UTC
+/// calendar date whatever the time of day, so the menu uses late-evening times for odd days and
+/// just-after-midnight times for even days (a connector that derives the date in another time zone, or
+/// rounds, then names the wrong contract).
 fn ymd(d: u32) -> DateTime<Utc> {
-    Utc.with_ymd_and_hms((d / 10000) as i32, (d / 100) % 100, d % 100, 8, 0, 0).unwrap()
+    let (h, m) = if (d % 100) % 2 == 1 { (22, 30) } else { (1, 15) };
+    Utc.with_ymd_and_hms((d / 10000) as i32, (d / 100) % 100, d % 100, h, m, 0).unwrap()
 }
 
 /// One menu instrument as the *user* writes it (base / quote may be mixed case).
